@@ -374,6 +374,56 @@ pub fn run(r: &mut Report, ctx: &Ctx) {
                 },
             );
         }
+        if ctx.want("body-pairs") {
+            r.section(
+                &format!("body-pairs-{len}"),
+                "two independent one-byte windows: every pair of byte positions (p1 < p2) x all (x1,y1,x2,y2) over the dibit-pattern alphabet {00,55,aa,ff,1b,e4} x 3 backgrounds, every compiled backend (cross-lane / cross-vector interactions and horizontal sums with two hot spots); non-trivial = all",
+                &format!("C({len},2) position pairs x 6^4 x 3 backgrounds x backends {:?}", backends),
+                true,
+                |s| {
+                    let bgs = &bgs;
+                    let backends = &backends;
+                    let alpha = [0x00u8, 0x55, 0xaa, 0xff, 0x1b, 0xe4];
+                    let npairs = (len * (len - 1) / 2) as u64;
+                    s.acc = par_for(npairs * 3, 4, |idx, acc| {
+                        let bg = [0usize, 16, 9][(idx % 3) as usize];
+                        // decode pair index
+                        let mut k = idx / 3;
+                        let mut p1 = 0usize;
+                        while k >= (len - 1 - p1) as u64 {
+                            k -= (len - 1 - p1) as u64;
+                            p1 += 1;
+                        }
+                        let p2 = p1 + 1 + k as usize;
+                        let mut a = bgs[bg].0.clone();
+                        let mut b = bgs[bg].1.clone();
+                        for c in 0..1296usize {
+                            a[p1] = alpha[c % 6];
+                            b[p1] = alpha[(c / 6) % 6];
+                            a[p2] = alpha[(c / 36) % 6];
+                            b[p2] = alpha[(c / 216) % 6];
+                            acc.evals += nb as u64;
+                            acc.transitions += nb as u64;
+                            acc.nontrivial += 1;
+                            match judge_body_backends(backends, &a, &b) {
+                                Ok(d) => {
+                                    if p1 == 0 && p2 == len - 1 {
+                                        acc.outcomes.insert(d as u64);
+                                    }
+                                }
+                                Err(e) => {
+                                    acc.fail(idx * 1296 + c as u64, "body-pairs", e, json!({"kind": "body", "a": hex(&a), "b": hex(&b)}));
+                                    return;
+                                }
+                            }
+                        }
+                        if p1 == 3 && p2 == 8 {
+                            acc.sample(idx, || json!({"len": len, "positions": [p1, p2], "alphabet": "00,55,aa,ff,1b,e4", "background": bg}));
+                        }
+                    });
+                },
+            );
+        }
         if ctx.want("body-fill") {
             r.section(
                 &format!("body-fill-{len}"),
